@@ -3,6 +3,7 @@ package codec
 import (
 	"fmt"
 	"net/url"
+	"sort"
 	"strings"
 
 	"github.com/iancoleman/strcase"
@@ -67,7 +68,17 @@ func (c *Codec) decodeQuery(queryString url.Values, msg protoreflect.Message) er
 		return err
 	}
 
-	for key, values := range queryString {
+	// parameters are applied in the order of their names: one may address a
+	// member of a container another creates, and the first error ends the
+	// call, so the order must not be that of the map.
+	keys := make([]string, 0, len(queryString))
+	for key := range queryString {
+		keys = append(keys, key)
+	}
+	sort.Strings(keys)
+
+	for _, key := range keys {
+		values := queryString[key]
 		if len(values) == 0 {
 			return status.Error(codes.InvalidArgument, fmt.Sprintf("no value provided for %q", key))
 		}
